@@ -398,8 +398,10 @@ void member_twin(const char* sig, F member, G ctor) {
 
 // ------------------------------------------------------------------ mode 5: inverse pairs
 // a' = g(f(a, b), b) must return a. The formulas are unknown to the harness: the accepted error is
-// the largest change of g's result when any component of c = f(a,b) or of b is moved by +-1, +-2,
-// +-4 ulps (one at a time), floored at 4 ulps of |a|_inf (DESIGN R3).
+// the largest change of g's result when any component of the ROUNDED intermediate c = f(a,b) is moved
+// by +-1, +-2, +-4 ulps (one at a time), floored at 8 ulps of |a|_inf (DESIGN R3). b is an exact input
+// shared by both directions and is not perturbed: an error that grows with the conditioning in b
+// (x - 1 for x next to one, say) is the relation's own, not the input's.
 template <class A, class B, class F, class G>
 void inverse2(const char* sig, F f, G g) {
   using C = std::decay_t<std::invoke_result_t<F, const A&, const B&>>;
@@ -422,14 +424,14 @@ void inverse2(const char* sig, F f, G g) {
         grid.push_back({m, x});
       }
   bool departed = false;
-  const long double ms[] = {1.0L, 1.375L, 1.9L};
+  const long double ms[] = {1.0L, 1.375L, 1.9L, 1.0078125L / 1.09375L};  // the last one puts the second operand next to 1 (a ratio near one: cancellation in x - 1)
   double worst = 0;
   for (auto [ea, eb] : grid)
     for (long double ma : ms)
       for (long double mb : ms)
         {
           const bool extreme = ea == sub || eb == sub || ea == far || eb == far || ea == -far || eb == -far;
-          if (!thorough && !(mb == 1.375L || (ma == 1.0L && eb == ea))) continue;
+          if (!thorough && !(mb == 1.375L || (mb == ms[3] && ma == 1.9L) || (ma == 1.0L && eb == ea))) continue;
           const A a = positive_operand<A>(ea, ma);
           const B b = positive_operand<B>(eb, mb * 1.09375L);
           const C c = f(a, b);
@@ -449,7 +451,7 @@ void inverse2(const char* sig, F f, G g) {
           f128 tol[9];
           f128 amax = 0;
           for (int i = 0; i < na; i++) amax = fmaxq(amax, fabsq((f128)x[i]));
-          for (int i = 0; i < na; i++) tol[i] = 4 * vf::ulp_at<T>(amax);
+          for (int i = 0; i < na; i++) tol[i] = 8 * vf::ulp_at<T>(amax);
           auto absorb = [&](const A& alt) {
             if (!finite(alt)) return;
             T z[9];
@@ -458,8 +460,7 @@ void inverse2(const char* sig, F f, G g) {
           };
           for (int d : {-4, -2, -1, 1, 2, 4}) {
             for (int k = 0; k < vf::count_of<C>(); k++) absorb(g(nudged(c, k, d), b));
-            if constexpr (!vf::is_direction<B>)
-              for (int k = 0; k < vf::count_of<B>(); k++) absorb(g(c, nudged(b, k, d)));
+
           }
           if (!extreme) vf::stat("round_trips");
           for (int i = 0; i < na; i++) {
